@@ -101,6 +101,50 @@ def histories(run, drv, n_hist, n_events, scratch):
             run.sample({"stream": "history", "events": [H.ev_sx6(e, addr_of) for e in evs[:10]]})
 
 
+def replay(run, drv, scratch):
+    """--replay <file> (and corpus/C06/*.json): event prefixes of recorded failures, re-run on both sides with the oracles"""
+    import c06_hist as H
+    from common import VERIF
+    files = sorted((VERIF / "corpus" / "C06").glob("*.json"))
+    if run.replay:
+        files = [Path(run.replay)] + files
+    for f in files:
+        try:
+            d = json.loads(Path(f).read_text())
+        except Exception:  # noqa
+            continue
+        evs_t = d.get("events")
+        if not evs_t:
+            for fl in d.get("failures", []):
+                c = fl.get("case", {})
+                if isinstance(c, dict) and c.get("prefix"):
+                    evs_t = c["prefix"]
+                    break
+        if not evs_t and d.get("broken_correspondence", {}).get("history"):
+            evs_t = d["broken_correspondence"]["history"][0]["case"]["prefix"]
+        if not evs_t:
+            continue
+        evs, rows, model, addr_of = H.replay_events6(drv, evs_t, scratch / ("replay_" + Path(f).stem))
+        for k, (ev, (what, ia), ma) in enumerate(zip(evs, rows, model)):
+            case = {"file": Path(f).name, "step": k, "event": evs_t[k], "prefix": evs_t[:k + 1]}
+            run.case(("replay6", Path(f).name, k))
+            if what == "read":
+                if ia["stale"]:
+                    run.oracle_fail("monitor", case, f"cache hit differs from a fresh recomputation: {ia['stale'][:300]}", f"stale:{ev[2]}")
+                elif ia["twin"]:
+                    run.oracle_fail("twin", case, f"read on the locked subject differs from the unlocked twin: {ia['twin'][:300]}", f"twin:{ev[2]}")
+                else:
+                    run.oracle_ok("monitor+twin")
+                mk, mres = ("other", None) if ma == "other" else H.canon_model_read(ev[2], ma)
+                ik = "miss" if (ia["kind"] == "hit" and mk == "miss") else ia["kind"]
+                if not run.corr("replay", case, [ik, ia["result"]], [mk, mres]):
+                    break
+            else:
+                m = [ma[0], [r if r == "dead" else [r[0], r[1], r[2], list(r[3]), [[str(e[0])] + list(e[1:3]) + ([0] if e[1] == "l" else []) for e in r[4]]] for r in ma[1]]]
+                if not run.corr("replay", case, ia, m):
+                    break
+
+
 # --------------------------------------------------------------------------- targeted scenarios (the witnesses of Props/C06)
 def scenarios(run, drv, scratch):
     import torch
@@ -155,12 +199,13 @@ def scenarios(run, drv, scratch):
 
     # (c) non-tensor indexed write under lock
     inner = T({"nt": NonTensorData("a", batch_size=[2]), "a": torch.zeros(2)})
-    td = T({"inner": inner, "z": torch.zeros(2)}).lock_()
-    for t in (td, inner):
-        t._values_list(); t._items_list(); t._values_list(True, True); t._values_list(True, False)
+    mid = T({"inner": inner, "m": torch.zeros(2)})
+    td = T({"mid": mid, "z": torch.zeros(2)}).lock_()
+    for t in (td, mid, inner):
+        t._values_list(); t._items_list(); t._values_list(True, True); t._values_list(True, False); t._items_list(True, False)
     inner[1] = {"nt": "b"}
-    check("scenario", "td.lock_(); td._values_list(); td['inner'][1] = {'nt': 'b'}; td._values_list()", "rebind-under-lock",
-          lambda: [(t._values_list(), t._items_list(), t._values_list(True, True), t._values_list(True, False)) for t in (td, inner)])
+    check("scenario", "td.lock_(); td._values_list(True, False); td['mid']['inner'][1] = {'nt': 'b'}; td._values_list(True, False)   (three levels)", "rebind-under-lock",
+          lambda: [(t._values_list(), t._items_list(), t._values_list(True, True), t._values_list(True, False), t._items_list(True, False)) for t in (td, mid, inner)])
     model = parse_sx(drv.ask("(c06.run (ctor () ((nt 100 0)) false) (ctor ((inner 0)) ((z 101 0)) true) (read 1 0 1 0) (read 0 0 0 0) (rebind 0 nt 200) (read 1 0 1 0) (read 0 0 0 0))"))
     run.corr("scenario", "rebind-erases-up", ["miss", "miss", "miss", "miss"], [model[2][0], model[3][0], model[5][0], model[6][0]])
 
@@ -183,6 +228,34 @@ def scenarios(run, drv, scratch):
     L.names
     m1.names = ["q"]; m2.names = ["q"]
     check("scenario", "L = lazy_stack(m1, m2).lock_(); L.names; m1.names = ['q']; m2.names = ['q']; L.names", "member-names-under-lock", lambda: L.names)
+
+    # (e2) names assigned through the locked stack itself (its setter erases the cache)
+    m1 = T({"x": torch.zeros(2)}); m2 = T({"x": torch.zeros(2)})
+    L = LazyStackedTensorDict(m1, m2, stack_dim=0).lock_()
+    L.names
+    try:
+        L.names = ["s", "q"]
+    except Exception as e:  # noqa
+        run.notes.append(f"scenario names-through-stack: {type(e).__name__}: {str(e)[:80]}")
+    check("scenario", "L = lazy_stack(m1, m2).lock_(); L.names; L.names = ['s', 'q']; L.names", "stack-names-under-lock", lambda: L.names)
+
+    # (h) entry access through a locked stack returns a *stacked copy* of the members' leaves: it must never be memoised
+    #     (an in-place write through a member would not be seen)
+    m1 = T({"x": torch.zeros(2), "n": T({"y": torch.zeros(2)})}); m2 = T({"x": torch.zeros(2), "n": T({"y": torch.zeros(2)})})
+    L = LazyStackedTensorDict(m1, m2, stack_dim=0).lock_()
+    tw = L.copy()
+    v0 = L.get("x").clone(); L._get_str("x", None); L.get(("n", "y"))
+    m1.set_("x", torch.ones(2)); m2.get("n").set_("y", torch.full((2,), 3.0))
+    stale.clear()
+    a = (L.get("x").tolist(), L.get(("n", "y")).tolist())
+    twv = None
+    tw.tensordicts[0].set_("x", torch.ones(2)); tw.tensordicts[1].get("n").set_("y", torch.full((2,), 3.0))
+    b = (tw.get("x").tolist(), tw.get(("n", "y")).tolist())
+    if a != b or stale:
+        run.oracle_fail("scenario", {"program": "L = lazy_stack(m1, m2).lock_(); L.get('x'); m1.set_('x', 1); L.get('x')"},
+                        f"entry access through the locked stack does not see a write through a member: locked={a} twin={b} {stale[:1]}", "lazy-entry-after-member-write")
+    else:
+        run.oracle_ok("scenario")
 
     # (f) in-place writes, writes through a member, lock/unlock cycles: transparent
     td = T({"a": torch.zeros(2), "b": T({"c": torch.zeros(2)})}).lock_()
@@ -267,8 +340,10 @@ def main():
     scratch = Path(tempfile.mkdtemp(prefix="c06_", dir=str(BUILD) if BUILD.exists() else None))
     try:
         thorough = run.tier == "thorough"
+        replay(run, drv, scratch)
         scenarios(run, drv, scratch)
-        histories(run, drv, 6000 if thorough else 600, 34 if thorough else 28, scratch)
+        if not run.replay:
+            histories(run, drv, 6000 if thorough else 600, 34 if thorough else 28, scratch)
     finally:
         M.uninstall()
         shutil.rmtree(scratch, ignore_errors=True)
